@@ -40,7 +40,7 @@ func (W) Name() string { return "origin" }
 func funcTargets() []int {
 	var out []int
 	for _, t := range hist.Targets {
-		if t.Kind == "func" {
+		if t.Kind == "func" && !t.NoOrigin && !t.Generic {
 			out = append(out, t.Idx)
 		}
 	}
